@@ -1720,7 +1720,8 @@ def get_articulations(e):
         "unstress",
         "soft-accent",
     )
-    return [a for a in articulations if e.find(a) is not None]
+    # in document order (the order the exporter writes them in)
+    return [a.tag for a in e if a.tag in articulations]
 
 
 def get_ornaments(e):
